@@ -155,8 +155,7 @@ def reauth_setup(kind):
         b.bind('a', ())
         b.bind('ka', b.st.new_py('dict', {}))
 
-        def func(interp, st, args, kwargs):
-            ok_self = bool(args) and args[0] is me
+        def run(interp, st, ok_self):
             for cls in ('AuthRequired', 'OSError'):
                 bad = st.copy()
                 bad.emit('call', outcome=cls, self_first=ok_self)
@@ -164,6 +163,18 @@ def reauth_setup(kind):
             r = sym.fresh(RESULT, 'result')
             st.emit('call', outcome='ok', value=r, self_first=ok_self)
             yield st, r
+
+        def func(interp, st, args, kwargs):
+            ok_self = bool(args) and args[0] is me
+            if kind == 'async':
+                # a coroutine function: calling it only creates the coroutine, the body runs (and may fail) when it is AWAITED;
+                # a coroutine handed back un-awaited is not a result
+                CORO = models.opaque_type('Coroutine')
+                CORO.on_await = lambda i, s, v, ok_self=ok_self: run(i, s, ok_self)
+                st.emit('coroutine_created')
+                yield st, sym.fresh(CORO, 'coro')
+            else:
+                yield from run(interp, st, ok_self)
 
         b.bind('func', Model('func', func))
         b.bind('exceptions', shared.EXCEPTIONS)
@@ -179,6 +190,9 @@ def reauth_post(prop, kind):
             sig = f'{",".join(o[:4] for o in outcomes)}->{p.kind}' + (':' + p.value.cls if p.kind == 'raise' else '')
             tag = f'{prop}.requires_auth[{kind}]'
             res.oblige(p, f'{tag}.wrapped_method_called_with_self', z3.BoolVal(all(c.data['self_first'] for c in calls)))
+            if kind == 'async':
+                # every coroutine the wrapper creates is awaited (its body runs): none is dropped or returned as if it were a result
+                res.oblige(p, f'{tag}.every_created_coroutine_is_awaited[{sig}]', z3.BoolVal(len(p.events('coroutine_created')) == len(calls)))
             if p.kind in ('return', 'normal'):
                 n_ok += 1
                 # the wrapper never reports success without a result of the wrapped call: it returns what the LAST call
